@@ -231,6 +231,15 @@ func c15Request(conn, reqIdx int, actions []string) *kmip.RequestMessage {
 		pls = append(pls, &payloads.ActivateRequestPayload{UniqueIdentifier: fmt.Sprintf("c%dr%di%d#%s", conn, reqIdx, i, strings.TrimSuffix(a, "+ext"))})
 	}
 	m := kmip.NewRequestMessage(kmip.V1_4, pls...)
+	// optional header fields that do not change what the items do: Batch Order Option (absent / true / false by request number)
+	switch (conn + reqIdx) % 3 {
+	case 1:
+		v := true
+		m.Header.BatchOrderOption = &v
+	case 2:
+		v := false
+		m.Header.BatchOrderOption = &v
+	}
 	for i, a := range actions {
 		if strings.HasSuffix(a, "+ext") {
 			// a non-critical message extension on the item does not change what the item does
@@ -306,6 +315,7 @@ func syncCount(c c15Case) int {
 }
 
 func c15Run(t *testing.T, c c15Case) (sig string, err error) {
+	defer evid.DeadlockWatch("C15", "TestC15Placeholder", c, "kmip-go/kmipserver")()
 	b := newBarrier(len(c.Conns))
 	if syncCount(c) == 0 {
 		b = nil
